@@ -93,6 +93,9 @@ fn main() {
                 vh::c01::run(seed, &tier, shard, nshards, collide)
             }
         }
+        "c07" => vh::c07::run(seed, &tier, shard, nshards),
+        "c10" => vh::c10::run(seed, &tier, shard, nshards),
+        "c12" => vh::c12::run(seed, &tier, shard, nshards),
         other => {
             eprintln!("unknown subcommand {other}");
             std::process::exit(2);
